@@ -129,6 +129,15 @@ def catalogue(quick=True):
     for dz in ["WeightedAverage", "WeightedSum"]:
         for ag in ["none", "Maximum", "AlgebraicSum"]:
             cs.append(engine(f"ts-{dz}-{ag}", [in_a(), in_b()], [out_ts(defuzzifier=dz, aggregation=ag)], [block("rb", copy.deepcopy(ts_rules), implication="none")]))
+    # rule weights that are not 1 (or 0) but lie within the library's comparison tolerance of it
+    near = copy.deepcopy(ts_rules)
+    for r, w in zip(near, ["1023/1024", "2047/2048", "1/1024", "4095/4096", "1/2048"]):
+        r["weight"] = X(w)
+    cs.append(engine("ts-weights-near-one", [in_a(), in_b()], [out_ts(defuzzifier="WeightedSum", aggregation="none")], [block("rb", near, implication="none")]))
+    e = base("weights-near-one", act=activation("Threshold", comparator=">=", threshold=1), y={"resolution": 2})
+    for r, w in zip(e["blocks"][0]["rules"], ["1023/1024", "1", "2047/2048", "1/1024"]):
+        r["weight"] = X(w)
+    cs.append(e)
     tsk_rules = [rule(P("a", "lo"), [C("w", "up")]), rule(P("a", "hi"), [C("w", "dn")]), rule(P("b", "hi"), [C("w", "cv")], weight="1/2"),
                  rule(P("b", "mid"), [C("w", "up")], weight="1/4")]
     for dz in ["WeightedAverage", "WeightedSum"]:
